@@ -82,7 +82,7 @@ def skeleton_of(py, raw_tokens):
 
 
 def json_part(rep, pest, thorough):
-    maxtoks, depth = (9, 3) if not thorough else (11, 4)
+    maxtoks, depth = (9, 3) if not thorough else (10, 4)  # (11 tokens with every rotation, white-space form and prefix in four modes took hours)
     cfg = write_cfg("JsonDoc", "Spec", {"MaxToks": maxtoks, "MaxDepth": depth}, invariants=["Balanced", "EmitDoc", "EmitLex"])
     docs, lex = [], {}
 
@@ -105,7 +105,7 @@ def json_part(rep, pest, thorough):
         g = (C.REPO / path).read_text()
         for mode in M.MODES:
             parsers.append((path, mode, rule, M.build(pest, g, mode)[0]))
-    rotations = 3 if not thorough else 8
+    rotations = 3 if not thorough else 4
     n_docs = 0
     for di, toks in enumerate(docs):
         for rot in range(rotations):
@@ -148,7 +148,12 @@ def json_part(rep, pest, thorough):
                     if got != want:
                         rep.violation({"kind": "json-tree", "grammar": path, "mode": mode, "document": text, "tree_folded": got, "json_loads": want}, f"{path}[{mode}] tree of {text!r} = {got} does not mirror json.loads = {want}")
                 # proper prefixes (of the form without leading white space too)
-                cuts = range(len(text)) if len(text) <= 24 or thorough else sorted({0, 1, len(text) - 1, len(text) // 2, len(text) // 3, (2 * len(text)) // 3})
+                if len(text) <= (24 if not thorough else 40):
+                    cuts = range(len(text))
+                elif not thorough:
+                    cuts = sorted({0, 1, len(text) - 1, len(text) // 2, len(text) // 3, (2 * len(text)) // 3})
+                else:
+                    cuts = sorted({0, 1, 2, len(text) - 1, len(text) - 2} | {(j * len(text)) // 12 for j in range(1, 12)})
                 for c in cuts:
                     pre = text[:c]
                     for path, mode, rule, parser in parsers:
